@@ -332,6 +332,7 @@ type ProduceRsp struct {
 	AddErr   string
 	Panic    string
 	Consensus []byte
+	SkipErrs []string // why candidates were skipped by the producer
 }
 
 func rcptInfos(rs *types.Receipts) []RcptInfo {
@@ -389,7 +390,13 @@ func (n *Node) Produce(req *ProduceReq) (rsp *ProduceRsp) {
 	ctx := context.Background()
 	exec := chain.NewTxExecutor(ctx, nil, n.cs.CDB().(contract.ChainAccessor), bi, contract.BlockFactory)
 	var ops []cchain.TxOp
-	ops = append(ops, cchain.TxOpFn(exec))
+	ops = append(ops, cchain.TxOpFn(func(b *state.BlockState, tx types.Transaction) error {
+		err := exec(b, tx)
+		if err != nil {
+			rsp.SkipErrs = append(rsp.SkipErrs, fmt.Sprintf("%x: %s", tx.GetHash()[:6], err.Error()))
+		}
+		return err
+	}))
 	if len(req.Probe) > 0 {
 		rsp.ProbeBefore = sumU(bs, req.Probe).String()
 		ops = append(ops, cchain.TxOpFn(func(b *state.BlockState, tx types.Transaction) error {
